@@ -17,7 +17,7 @@ import os
 import re
 
 from harness.vlib.core import Ctx, ToolFailure
-from harness.c05.front import compile_ext, front, run_worker
+from harness.c05.front import compile_ext, front, run_worker, report, violation_nf
 
 NAMES = ["a", "b", "c", "d", "e", "f", "g"]
 NUM = {n: i + 1 for i, n in enumerate(NAMES)}
@@ -281,7 +281,7 @@ def run(ctx: Ctx, pool, col=None):
         if keyr in reported and obs["shape"] != "other":
             continue
         reported.add(keyr)
-        ctx.report(obs, f"`def f({s.text()})` called from interpreted code as f({call_text(c)}) (opt {opt}): compiled {comp[:120]}, "
+        report(ctx, "bind", obs, f"`def f({s.text()})` called from interpreted code as f({call_text(c)}) (opt {opt}): compiled {comp[:120]}, "
                         f"CPython {interp[:120]} (PyBind model: {mpy.group(1) if mpy else '?'})",
                    {"kind": "bind", "signature": s.text(), "ret": s.ret(), "call": call_text(c), "caller": "interpreted", "opt": opt,
                     "compiled": comp, "cpython": interp})
@@ -302,7 +302,7 @@ def run(ctx: Ctx, pool, col=None):
         if keyr in reported and obs["shape"] != "other":
             continue
         reported.add(keyr)
-        ctx.report(obs, f"`def f({s.text()})` called from compiled code as f({call_text(c)}) (opt {opt}): compiled {comp[:120]}, "
+        report(ctx, "bind", obs, f"`def f({s.text()})` called from compiled code as f({call_text(c)}) (opt {opt}): compiled {comp[:120]}, "
                         f"CPython {interp[:120]}",
                    {"kind": "bind", "signature": s.text(), "ret": s.ret(), "call": call_text(c), "caller": "native", "opt": opt,
                     "compiled": comp, "cpython": interp})
